@@ -20,11 +20,16 @@ CONSTANTS
   MaxRestarts,
   QKinds,       \* which query kinds the environment issues (subset of QueryKinds)
   ResetKvs,     \* TRUE: OnCommit clears app.kvs (code after the repair); FALSE: it never does
-  HdrRebuilt    \* TRUE: a contract query without a current header rebuilds it; FALSE: nil dereference
+  HdrRebuilt,   \* TRUE: a contract query without a current header rebuilds it; FALSE: nil dereference
+  MaxCrashes,   \* crashes inside OnCommit per behaviour
+  TrimFloor     \* kv.go (*kvBatch).put trims entries of the replayed height down to this index: 0 (the code), 1 = the
+                \* first entry is never examined
 
 VARIABLES
   pH, pS, pKV, pRc, pHist,                 \* persistent
   vSt, vCur, vRc, vKvs, vHist, vHdr,       \* volatile
+  must,       \* the block the node must execute next: a crash inside OnCommit hit after consensus had decided it
+  crashes,
   chain,      \* ghost: the committed blocks
   exe,        \* block executed and not yet committed (None: none)
   restarts,
@@ -33,8 +38,8 @@ VARIABLES
 
 pvars == <<pH, pS, pKV, pRc, pHist>>
 vvars == <<vSt, vCur, vRc, vKvs, vHist, vHdr>>
-vars  == <<pH, pS, pKV, pRc, pHist, vSt, vCur, vRc, vKvs, vHist, vHdr, chain, exe, restarts, res>>
-view  == <<pH, pS, pKV, pRc, pHist, vSt, vCur, vRc, vKvs, vHist, vHdr, chain, exe, restarts>>
+vars  == <<pH, pS, pKV, pRc, pHist, vSt, vCur, vRc, vKvs, vHist, vHdr, chain, exe, restarts, must, crashes, res>>
+view  == <<pH, pS, pKV, pRc, pHist, vSt, vCur, vRc, vKvs, vHist, vHdr, chain, exe, restarts, must, crashes>>
 
 NoBlock == [on |-> FALSE, b |-> <<>>]
 Blk(b) == [on |-> TRUE, b |-> b]
@@ -44,7 +49,7 @@ PanicAns == [panic |-> TRUE]
 Init ==
   /\ pH = 0 /\ pS = Genesis /\ pKV = [k \in Keys |-> None] /\ pRc = {} /\ pHist = [k \in Keys |-> <<>>]
   /\ vSt = Genesis /\ vCur = NoState /\ vRc = <<>> /\ vKvs = <<>> /\ vHist = <<>> /\ vHdr = 0
-  /\ chain = <<>> /\ exe = NoBlock /\ restarts = 0
+  /\ chain = <<>> /\ exe = NoBlock /\ restarts = 0 /\ must = NoBlock /\ crashes = 0
   /\ res = [op |-> "init"]
 
 (* --- what one OnExecute computes from a start state: pure, also used for the reference ---- *)
@@ -64,13 +69,24 @@ Exec(s, b) == Run(s, b, 1, [valid |-> <<>>, invalid |-> <<>>, rc |-> <<>>, kvs |
 
 RECURSIVE FoldKv(_, _)
 FoldKv(m, s) == IF s = <<>> THEN m ELSE FoldKv([m EXCEPT ![Head(s).k] = Head(s).v], Tail(s))
-RECURSIVE FoldHist(_, _)
-FoldHist(m, s) == IF s = <<>> THEN m ELSE FoldHist([m EXCEPT ![Head(s).k] = Append(@, Head(s).v)], Tail(s))
+\* kv.go SaveKeyHistory / (*kvBatch).put for the records s of block height h: the first record of a key in the batch
+\* first drops the stored entries whose height is >= h (the block is being executed AGAIN after a crash inside its
+\* commit), examining indices down to `floor`; later records of the same key are appended
+RECURSIVE Trim(_, _, _)
+Trim(q, h, floor) == IF Len(q) > floor /\ q[Len(q)].h >= h THEN Trim(SubSeq(q, 1, Len(q) - 1), h, floor) ELSE q
+RECURSIVE PutHist(_, _, _, _, _)
+PutHist(m, s, h, floor, seen) ==
+  IF s = <<>> THEN m
+  ELSE LET k == Head(s).k
+           q == IF k \in seen THEN m[k] ELSE Trim(m[k], h, floor)
+       IN PutHist([m EXCEPT ![k] = Append(q, [v |-> Head(s).v, h |-> h])], Tail(s), h, floor, seen \cup {k})
+FoldHist(m, s, h) == PutHist(m, s, h, 0, {})
 SeqToSet(s) == {s[i] : i \in 1..Len(s)}
 
 (* --- actions -------------------------------------------------------------------------------- *)
 Execute(b) ==
   /\ exe = NoBlock /\ pH < MaxH
+  /\ (must.on => b = must.b)             \* the decided block is replayed
   /\ LET e == Exec(pS, b)                  \* estate.New(getLastAppHash()) : starts from the PERSISTED state
      IN /\ vCur' = e.s
         /\ vRc' = vRc \o e.rc              \* app.receipts = append(app.receipts, ...)
@@ -79,19 +95,20 @@ Execute(b) ==
         /\ res' = [op |-> "Execute", valid |-> e.valid, invalid |-> e.invalid]
   /\ vHdr' = pH + 1                        \* app.currentHeader = makeCurrentHeader(block)
   /\ exe' = Blk(b)
-  /\ UNCHANGED <<pH, pS, pKV, pRc, pHist, vSt, chain, restarts>>
+  /\ UNCHANGED <<pH, pS, pKV, pRc, pHist, vSt, chain, restarts, must, crashes>>
 
 Commit ==
   /\ exe # NoBlock /\ vCur # NoState
   /\ pS' = vCur /\ vSt' = vCur /\ pH' = pH + 1
   /\ pRc' = pRc \cup SeqToSet(vRc)
   /\ pKV' = FoldKv(pKV, vKvs)
-  /\ pHist' = FoldHist(pHist, vHist)
+  /\ pHist' = PutHist(pHist, vHist, pH + 1, TrimFloor, {})
   /\ vRc' = <<>> /\ vHist' = <<>>
   /\ vKvs' = IF ResetKvs THEN <<>> ELSE vKvs
   /\ chain' = Append(chain, exe.b) /\ exe' = NoBlock
   /\ res' = [op |-> "Commit", app |-> vCur, rh |-> [rc |-> vRc, kvs |-> vKvs]]
-  /\ UNCHANGED <<vCur, vHdr, restarts>>
+  /\ must' = NoBlock
+  /\ UNCHANGED <<vCur, vHdr, restarts, crashes>>
 
 Restart ==
   /\ restarts < MaxRestarts
@@ -99,7 +116,21 @@ Restart ==
   /\ vSt' = pS /\ vCur' = NoState /\ vRc' = <<>> /\ vKvs' = <<>> /\ vHist' = <<>> /\ vHdr' = 0
   /\ exe' = NoBlock
   /\ res' = [op |-> "Restart"]
-  /\ UNCHANGED <<pH, pS, pKV, pRc, pHist, chain>>
+  /\ UNCHANGED <<pH, pS, pKV, pRc, pHist, chain, must, crashes>>
+
+\* A crash inside OnCommit after j groups of durable writes: 1 trie nodes; 2 + receipts and kv records; 3 + key
+\* history (kv_update_history); 4 + "lastreceipts".  "lastblock", the application's commit point, is not written:
+\* after the restart the application is still at the previous height and the decided block is executed again.
+CrashCommit(j) ==
+  /\ exe.on /\ vCur # NoState /\ crashes < MaxCrashes
+  /\ crashes' = crashes + 1
+  /\ pRc' = IF j >= 2 THEN pRc \cup SeqToSet(vRc) ELSE pRc
+  /\ pKV' = IF j >= 2 THEN FoldKv(pKV, vKvs) ELSE pKV
+  /\ pHist' = IF j >= 3 THEN PutHist(pHist, vHist, pH + 1, TrimFloor, {}) ELSE pHist
+  /\ vSt' = pS /\ vCur' = NoState /\ vRc' = <<>> /\ vKvs' = <<>> /\ vHist' = <<>> /\ vHdr' = 0
+  /\ must' = exe /\ exe' = NoBlock
+  /\ res' = [op |-> "CrashCommit", j |-> j]
+  /\ UNCHANGED <<pH, pS, chain, restarts>>
 
 \* Query: "state" = nonce / code / key / receipt / history queries; "call" = contract call (needs a header)
 QueryKinds == {"state", "call"}
@@ -109,9 +140,10 @@ Answer(kind) ==
   ELSE [cnt |-> vSt.cnt, hdr |-> IF vHdr = 0 THEN pH ELSE vHdr]
 Query(kind) ==
   /\ res' = [op |-> "Query", kind |-> kind, ans |-> Answer(kind)]
-  /\ UNCHANGED <<pH, pS, pKV, pRc, pHist, vSt, vCur, vRc, vKvs, vHist, vHdr, chain, exe, restarts>>
+  /\ ~must.on                           \* (queries while a decided block awaits its replay are C06's)
+  /\ UNCHANGED <<pH, pS, pKV, pRc, pHist, vSt, vCur, vRc, vKvs, vHist, vHdr, chain, exe, restarts, must, crashes>>
 
-Next == Commit \/ Restart \/ (\E b \in BlockSet : Execute(b)) \/ (\E k \in QKinds : Query(k))
+Next == Commit \/ Restart \/ (\E j \in 1..4 : CrashCommit(j)) \/ (\E b \in BlockSet : Execute(b)) \/ (\E k \in QKinds : Query(k))
 Spec == Init /\ [][Next]_vars
 
 ---------------------------------------------------------------------------------------
@@ -122,7 +154,7 @@ FLast(c) == Exec(FState(SubSeq(c, 1, Len(c) - 1)), c[Len(c)])
 RECURSIVE FKv(_)
 FKv(c) == IF c = <<>> THEN [k \in Keys |-> None] ELSE FoldKv(FKv(SubSeq(c, 1, Len(c) - 1)), FLast(c).kvs)
 RECURSIVE FHist(_)
-FHist(c) == IF c = <<>> THEN [k \in Keys |-> <<>>] ELSE FoldHist(FHist(SubSeq(c, 1, Len(c) - 1)), FLast(c).kvs)
+FHist(c) == IF c = <<>> THEN [k \in Keys |-> <<>>] ELSE FoldHist(FHist(SubSeq(c, 1, Len(c) - 1)), FLast(c).kvs, Len(c))
 RECURSIVE FRc(_)
 FRc(c) == IF c = <<>> THEN {} ELSE FRc(SubSeq(c, 1, Len(c) - 1)) \cup SeqToSet(FLast(c).rc)
 
@@ -145,7 +177,7 @@ ResultDependsOnlyOnChain ==
 \* ... and everything queries can see
 PersistentIsFunctionOfChain ==
   /\ pS = FState(chain) /\ vSt = FState(chain)
-  /\ pKV = FKv(chain) /\ pHist = FHist(chain) /\ pRc = FRc(chain)
+  /\ (~must.on => pKV = FKv(chain) /\ pHist = FHist(chain) /\ pRc = FRc(chain))
 QueriesDependOnlyOnChain ==
   [][ res'.op = "Query" =>
         res'.ans = IF res'.kind = "state"
